@@ -87,6 +87,7 @@ type Engine struct {
 	funcPkg    map[*types.Func]*pkgInfo
 	errors     []string
 	repo       string
+	ovf        bool
 }
 
 func loadEngine(repo, specDir string) (*Engine, error) {
